@@ -45,6 +45,7 @@ CONSTANTS NT,         \* threads 1..NT  (thread 0 = the harness main thread, onl
           NRes,       \* resources 1..NRes (given to the provider)
           MaxRecs, MaxSets, MaxArgs, MaxFlush,
           MaxNull,    \* EmitLogRecord calls with a null record per behaviour
+          MaxAdd,     \* LoggerProvider::AddProcessor calls per behaviour (pipeline length stays <= 3)
           LgSet,      \* loggers in use (subset of 1..3)
           MaxScope,   \* Scope objects created per behaviour
           MaxNest,    \* nesting depth of active spans per thread
@@ -52,7 +53,8 @@ CONSTANTS NT,         \* threads 1..NT  (thread 0 = the harness main thread, onl
           GenDepth, Hist,
           Dev
 
-PipeTable == [s   |-> <<"simple">>,           b   |-> <<"batch">>,           h  |-> <<"hold">>,
+PipeTable == [e   |-> <<>>,
+              s   |-> <<"simple">>,           b   |-> <<"batch">>,           h  |-> <<"hold">>,
               sb  |-> <<"simple", "batch">>,  bs  |-> <<"batch", "simple">>,  bb |-> <<"batch", "batch">>,
               sbh |-> <<"simple", "batch", "hold">>, bhs |-> <<"batch", "hold", "simple">>]
 Pipelines == {PipeTable[n] : n \in PipeNames}
@@ -73,10 +75,13 @@ VARIABLES pipe, res,          \* configuration, chosen in Init
           cur,                \* [Threads -> the EmitLogRecord call in progress]
           pending,            \* [1..Len(pipe) -> Seq of record ids]   queued in a batch processor
           exported,           \* [1..Len(pipe) -> Seq of snapshots]    what reached the exporter
+          maybe,              \* [1..Len(pipe) -> set of record ids]   queued-or-not in a batch processor that was ADDED
+                              \*                                       after the record had been created (left open)
+          nadd,
           nflush, nnull, crashed, devUsed,
           last, flags, hist
 
-bvars == <<pipe, res, spans, scopeIds, nscope, recs, cur, pending, exported, nflush, nnull, crashed, devUsed>>
+bvars == <<pipe, res, spans, scopeIds, nscope, recs, cur, pending, exported, maybe, nadd, nflush, nnull, crashed, devUsed>>
 vars  == <<bvars, last, flags, hist>>
 
 Procs == 1..Len(pipe)
@@ -84,14 +89,16 @@ Idle  == [mode |-> "idle", r |-> 0, lg |-> 0, args |-> <<>>]
 
 (* ---- arguments ---------------------------------------------------------- *)
 NoArg == [k |-> "none", v |-> 0, nm |-> 0, m |-> <<>>]
+IdVals == IF NId = 0 THEN {} ELSE 0..NId      \* 0: SpanContext::GetInvalid() / TraceId() / SpanId()
+FlVals == IF NFl = 0 THEN {} ELSE 0..NFl      \* 0: TraceFlags()
 AttrMaps == {m \in [AttrKeys -> 0..NAV] : Cardinality({k \in AttrKeys : m[k] # 0}) <= MaxMap}
 Args == {[NoArg EXCEPT !.k = "sev", !.v = v] : v \in 1..NSev}
    \cup {[NoArg EXCEPT !.k = "body", !.v = v] : v \in 1..NBody}
    \cup {[NoArg EXCEPT !.k = "ts", !.v = v] : v \in 1..NTs}
-   \cup {[NoArg EXCEPT !.k = "ctx", !.v = v] : v \in 1..NId}
-   \cup {[NoArg EXCEPT !.k = "sid", !.v = v] : v \in 1..NId}
-   \cup {[NoArg EXCEPT !.k = "tid", !.v = v] : v \in 1..NId}
-   \cup {[NoArg EXCEPT !.k = "flags", !.v = v] : v \in 1..NFl}
+   \cup {[NoArg EXCEPT !.k = "ctx", !.v = v] : v \in IdVals}
+   \cup {[NoArg EXCEPT !.k = "sid", !.v = v] : v \in IdVals}
+   \cup {[NoArg EXCEPT !.k = "tid", !.v = v] : v \in IdVals}
+   \cup {[NoArg EXCEPT !.k = "flags", !.v = v] : v \in FlVals}
    \cup {[NoArg EXCEPT !.k = "attrs", !.m = m] : m \in AttrMaps}
    \cup {[NoArg EXCEPT !.k = "event", !.v = v, !.nm = n] : v \in 1..NEv, n \in 0..NName}
 
@@ -100,8 +107,8 @@ IsArg(a) ==
   CASE a.k = "sev"   -> a.v \in 1..NSev /\ a.nm = 0 /\ a.m = <<>>
     [] a.k = "body"  -> a.v \in 1..NBody /\ a.nm = 0 /\ a.m = <<>>
     [] a.k = "ts"    -> a.v \in 1..NTs /\ a.nm = 0 /\ a.m = <<>>
-    [] a.k \in {"ctx", "sid", "tid"} -> a.v \in 1..NId /\ a.nm = 0 /\ a.m = <<>>
-    [] a.k = "flags" -> a.v \in 1..NFl /\ a.nm = 0 /\ a.m = <<>>
+    [] a.k \in {"ctx", "sid", "tid"} -> a.v \in IdVals /\ a.nm = 0 /\ a.m = <<>>
+    [] a.k = "flags" -> a.v \in FlVals /\ a.nm = 0 /\ a.m = <<>>
     [] a.k = "attrs" -> /\ a.v = 0 /\ a.nm = 0 /\ DOMAIN a.m = AttrKeys
                         /\ \A k \in AttrKeys : a.m[k] \in 0..NAV
                         /\ Cardinality({k \in AttrKeys : a.m[k] # 0}) <= MaxMap
@@ -110,8 +117,8 @@ IsArg(a) ==
 
 SpanTid(s) == s
 SpanFl(s)  == s % 4            \* abstract flag values 0..3: 0 = the zero byte, 1..3 = three arbitrary bytes
-ExplId(i)  == 10 + i
-ExplFl(i)  == 1 + (i % 3)
+ExplId(i)  == IF i = 0 THEN 0 ELSE 10 + i     \* explicit identity 0 = all-zero ids / default flags: it still WINS
+ExplFl(i)  == IF i = 0 THEN 0 ELSE (i + 1) % 4
 ActiveSpan(t) == IF spans[t] = <<>> THEN 0 ELSE spans[t][Len(spans[t])].s
 
 F(v, dead) == [v |-> v, dead |-> dead]          \* v = 0: never supplied / key absent
@@ -120,6 +127,7 @@ NewRec(t, lg) ==
    sev |-> 0, body |-> F(0, FALSE), ts |-> 0, evid |-> 0, evname |-> 0,
    tid |-> SpanTid(ActiveSpan(t)), sid |-> SpanTid(ActiveSpan(t)), fl |-> SpanFl(ActiveSpan(t)),
    attrs |-> [k \in AttrKeys |-> F(0, FALSE)], nset |-> 0,
+   np |-> Len(pipe),                                  \* processors configured when the record was created
    span0 |-> ActiveSpan(t), args |-> <<>>]           \* ghosts: what was active at creation, every argument in order
 
 \* the incremental fold: one typed setter.  `dead`: the argument's buffers are already overwritten
@@ -153,17 +161,22 @@ NoOp == [op |-> "Init", t |-> 0, r |-> 0, lg |-> 0, s |-> 0, via |-> "", a |-> N
 \* expectations of a step: per processor, the snapshots that reach its exporter in this step,
 \* as the ideal demands (exp) and as the aliasing deviation would produce them (expDev)
 NoExp == [p \in Procs |-> <<>>]
-Rec(l, e, d) == /\ last' = l
-                /\ hist' = IF Hist THEN Append(hist, l @@ [exp |-> e, expDev |-> d]) ELSE hist
+\* opt / optDev: snapshots that MAY additionally (at most once each) show up at a processor that was added
+\* after the record had been created - the statement does not say whether such a processor gets it
+RecO(l, e, d, o, od) == /\ last' = l
+                        /\ hist' = IF Hist THEN Append(hist, l @@ [exp |-> e, expDev |-> d, opt |-> o, optDev |-> od]) ELSE hist
+Rec(l, e, d) == RecO(l, e, d, NoExp, NoExp)
 Flag(f) == flags' = IF Hist THEN flags \cup f ELSE flags
 
 Init == /\ pipe \in Pipelines /\ res \in 1..NRes
         /\ spans = [t \in Threads |-> <<>>] /\ scopeIds = [t \in Threads |-> {}] /\ nscope = 0
         /\ recs = <<>> /\ cur = [t \in Threads |-> Idle]
         /\ pending = [p \in Procs |-> <<>>] /\ exported = [p \in Procs |-> <<>>]
+        /\ maybe = [p \in Procs |-> {}] /\ nadd = 0
         /\ nflush = 0 /\ nnull = 0 /\ crashed = FALSE /\ devUsed = {}
         /\ last = NoOp /\ flags = {}
-        /\ hist = IF Hist THEN <<NoOp @@ [pipe |-> pipe, res |-> res, exp |-> NoExp, expDev |-> NoExp]>> ELSE <<>>
+        /\ hist = IF Hist THEN <<NoOp @@ [pipe |-> pipe, res |-> res, exp |-> NoExp, expDev |-> NoExp, opt |-> NoExp, optDev |-> NoExp]>>
+               ELSE <<>>
 
 Alive == ~crashed
 
@@ -173,7 +186,7 @@ ScopeEnter(t, s) ==
   /\ spans' = [spans EXCEPT ![t] = Append(@, [id |-> nscope + 1, s |-> s])]
   /\ scopeIds' = [scopeIds EXCEPT ![t] = @ \cup {nscope + 1}]
   /\ nscope' = nscope + 1
-  /\ UNCHANGED <<pipe, res, recs, cur, pending, exported, nflush, nnull, crashed, devUsed>>
+  /\ UNCHANGED <<pipe, res, recs, cur, pending, exported, maybe, nadd, nflush, nnull, crashed, devUsed>>
   /\ Rec([NoOp EXCEPT !.op = "ScopeEnter", !.t = t, !.s = s, !.r = nscope + 1], NoExp, NoExp)
   /\ Flag({})
 
@@ -183,7 +196,7 @@ ScopeExit(t, id) ==
   /\ LET o == {i \in 1..Len(spans[t]) : spans[t][i].id = id} IN
      spans' = IF o = {} THEN spans ELSE [spans EXCEPT ![t] = SubSeq(@, 1, (CHOOSE i \in o : TRUE) - 1)]
   /\ scopeIds' = [scopeIds EXCEPT ![t] = @ \ {id}]
-  /\ UNCHANGED <<pipe, res, nscope, recs, cur, pending, exported, nflush, nnull, crashed, devUsed>>
+  /\ UNCHANGED <<pipe, res, nscope, recs, cur, pending, exported, maybe, nadd, nflush, nnull, crashed, devUsed>>
   /\ Rec([NoOp EXCEPT !.op = "ScopeExit", !.t = t, !.r = id], NoExp, NoExp)
   /\ Flag({})
 
@@ -195,7 +208,7 @@ CreateFlags(t) == (IF Len(spans[t]) >= 2 THEN {"nested_span"} ELSE {}) \cup
 Create(t, lg) ==
   /\ Alive /\ cur[t].mode = "idle" /\ Len(recs) < MaxRecs /\ lg \in Loggers
   /\ recs' = Append(recs, NewRec(t, lg))
-  /\ UNCHANGED <<pipe, res, spans, scopeIds, nscope, cur, pending, exported, nflush, nnull, crashed, devUsed>>
+  /\ UNCHANGED <<pipe, res, spans, scopeIds, nscope, cur, pending, exported, maybe, nadd, nflush, nnull, crashed, devUsed>>
   /\ Rec([NoOp EXCEPT !.op = "Create", !.t = t, !.r = Len(recs) + 1, !.lg = lg], NoExp, NoExp)
   /\ Flag(CreateFlags(t))
 
@@ -205,12 +218,15 @@ ApplyFlags(rc, a) ==
   (IF a.k = "body" /\ rc.body.v # 0 THEN {"body_twice"} ELSE {}) \cup
   (IF a.k = "ctx" /\ rc.span0 # 0 THEN {"explicit_over_span"} ELSE {}) \cup
   (IF a.k \in {"sid", "tid", "flags"} /\ rc.span0 # 0 THEN {"partial_identity"} ELSE {}) \cup
+  (IF a.k \in {"ctx", "sid", "tid"} /\ a.v = 0 /\ rc.span0 # 0 THEN {"explicit_zero_id_over_span"} ELSE {}) \cup
+  (IF ((a.k = "flags" /\ a.v = 0) \/ (a.k = "ctx" /\ a.v # 0 /\ ExplFl(a.v) = 0)) /\ SpanFl(rc.span0) # 0
+      THEN {"explicit_zero_flags_over_span"} ELSE {}) \cup
   (IF a.k = "attrs" /\ \A k \in AttrKeys : a.m[k] = 0 THEN {"empty_attrs"} ELSE {})
 Set(t, r, a) ==
   /\ Alive /\ cur[t].mode = "idle" /\ r \in 1..Len(recs) /\ IsArg(a)
   /\ recs[r].t = t /\ recs[r].st = "open" /\ recs[r].nset < MaxSets
   /\ recs' = [recs EXCEPT ![r] = [Apply(@, a, TRUE) EXCEPT !.nset = @ + 1]]
-  /\ UNCHANGED <<pipe, res, spans, scopeIds, nscope, cur, pending, exported, nflush, nnull, crashed, devUsed>>
+  /\ UNCHANGED <<pipe, res, spans, scopeIds, nscope, cur, pending, exported, maybe, nadd, nflush, nnull, crashed, devUsed>>
   /\ Rec([NoOp EXCEPT !.op = "Set", !.t = t, !.r = r, !.a = a], NoExp, NoExp)
   /\ Flag(ApplyFlags(recs[r], a) \cup (IF a.k = "event" /\ a.nm = 0 THEN {"event_noname_setter"} ELSE {}))
 
@@ -223,7 +239,7 @@ BeginEmitRec(t, r) ==
   /\ recs[r].t = t /\ recs[r].st = "open"
   /\ recs' = [recs EXCEPT ![r].st = "emitting"]
   /\ cur' = [cur EXCEPT ![t] = [mode |-> "rec", r |-> r, lg |-> recs[r].lg, args |-> <<>>]]
-  /\ UNCHANGED <<pipe, res, spans, scopeIds, nscope, pending, exported, nflush, nnull, crashed, devUsed>>
+  /\ UNCHANGED <<pipe, res, spans, scopeIds, nscope, pending, exported, maybe, nadd, nflush, nnull, crashed, devUsed>>
   /\ Rec([NoOp EXCEPT !.op = "BeginEmit", !.t = t, !.r = r, !.lg = recs[r].lg, !.via = "rec"], NoExp, NoExp)
   /\ Flag(IF recs[r].span0 # ActiveSpan(t) THEN {"scope_changed_before_emit"} ELSE {})
 
@@ -231,7 +247,7 @@ BeginEmitNew(t, lg) ==
   /\ Alive /\ cur[t].mode = "idle" /\ Len(recs) < MaxRecs /\ lg \in Loggers
   /\ recs' = Append(recs, [NewRec(t, lg) EXCEPT !.st = "emitting"])
   /\ cur' = [cur EXCEPT ![t] = [mode |-> "new", r |-> Len(recs) + 1, lg |-> lg, args |-> <<>>]]
-  /\ UNCHANGED <<pipe, res, spans, scopeIds, nscope, pending, exported, nflush, nnull, crashed, devUsed>>
+  /\ UNCHANGED <<pipe, res, spans, scopeIds, nscope, pending, exported, maybe, nadd, nflush, nnull, crashed, devUsed>>
   /\ Rec([NoOp EXCEPT !.op = "BeginEmit", !.t = t, !.r = Len(recs) + 1, !.lg = lg, !.via = "new"], NoExp, NoExp)
   /\ Flag(CreateFlags(t))
 
@@ -239,7 +255,7 @@ BeginEmitNull(t, lg) ==
   /\ Alive /\ cur[t].mode = "idle" /\ lg \in Loggers /\ nnull < MaxNull
   /\ cur' = [cur EXCEPT ![t] = [mode |-> "null", r |-> 0, lg |-> lg, args |-> <<>>]]
   /\ nnull' = nnull + 1
-  /\ UNCHANGED <<pipe, res, spans, scopeIds, nscope, recs, pending, exported, nflush, crashed, devUsed>>
+  /\ UNCHANGED <<pipe, res, spans, scopeIds, nscope, recs, pending, exported, maybe, nadd, nflush, crashed, devUsed>>
   /\ Rec([NoOp EXCEPT !.op = "BeginEmit", !.t = t, !.lg = lg, !.via = "null"], NoExp, NoExp)
   /\ Flag({})
 
@@ -248,7 +264,7 @@ Arg(t, a) ==
   /\ Alive /\ cur[t].mode # "idle" /\ Len(cur[t].args) < MaxArgs /\ IsArg(a)
   /\ cur' = [cur EXCEPT ![t].args = Append(@, a)]
   /\ recs' = IF cur[t].mode = "null" THEN recs ELSE [recs EXCEPT ![cur[t].r] = Apply(@, a, FALSE)]
-  /\ UNCHANGED <<pipe, res, spans, scopeIds, nscope, pending, exported, nflush, nnull, crashed, devUsed>>
+  /\ UNCHANGED <<pipe, res, spans, scopeIds, nscope, pending, exported, maybe, nadd, nflush, nnull, crashed, devUsed>>
   /\ Rec([NoOp EXCEPT !.op = "Arg", !.t = t, !.r = cur[t].r, !.a = a], NoExp, NoExp)
   /\ Flag(IF cur[t].mode = "null" THEN {} ELSE ApplyFlags(recs[cur[t].r], a))
 
@@ -258,7 +274,15 @@ Deliver(t, alias) ==
   \* per processor: what its exporter receives during this Emit call
   LET c == cur[t] IN
   [p \in Procs |->
-     IF c.mode = "null" \/ recs[c.r].noop THEN <<>>
+     IF c.mode = "null" \/ recs[c.r].noop \/ p > recs[c.r].np THEN <<>>
+     ELSE IF pipe[p] = "simple" THEN <<Snapshot(c.r, recs[c.r], alias)>>
+     ELSE IF pipe[p] = "hold" THEN <<Snapshot(c.r, KillAll(recs[c.r]), alias)>>
+     ELSE <<>>]
+DeliverOpt(t, alias) ==
+  \* processors added after the record was created: they may or may not get it (at most once)
+  LET c == cur[t] IN
+  [p \in Procs |->
+     IF c.mode = "null" \/ recs[c.r].noop \/ p <= recs[c.r].np THEN <<>>
      ELSE IF pipe[p] = "simple" THEN <<Snapshot(c.r, recs[c.r], alias)>>
      ELSE IF pipe[p] = "hold" THEN <<Snapshot(c.r, KillAll(recs[c.r]), alias)>>
      ELSE <<>>]
@@ -272,33 +296,58 @@ EndEmit(t) ==
      /\ crashed' = boom
      /\ exported' = IF boom THEN exported ELSE [p \in Procs |-> exported[p] \o Deliver(t, AliasDev)[p]]
      /\ pending' = IF boom \/ ~real THEN pending
-                   ELSE [p \in Procs |-> IF pipe[p] = "batch" THEN Append(pending[p], c.r) ELSE pending[p]]
+                   ELSE [p \in Procs |-> IF pipe[p] = "batch" /\ p <= recs[c.r].np THEN Append(pending[p], c.r) ELSE pending[p]]
+     /\ maybe' = IF boom \/ ~real THEN maybe
+                 ELSE [p \in Procs |-> IF pipe[p] = "batch" /\ p > recs[c.r].np THEN maybe[p] \cup {c.r} ELSE maybe[p]]
      /\ devUsed' = devUsed \cup (IF boom THEN {"eventid-without-name-crashes"} ELSE {})
                            \cup (IF ~boom /\ AliasDev /\ Deliver(t, TRUE) # Deliver(t, FALSE)
                                     THEN {"log-record-aliases-caller-buffers"} ELSE {})
-     /\ UNCHANGED <<pipe, res, spans, scopeIds, nscope, nflush, nnull>>
-     /\ Rec([NoOp EXCEPT !.op = "EndEmit", !.t = t, !.r = c.r, !.lg = c.lg, !.via = c.mode, !.args = c.args,
-                         !.mayCrash = HasNamelessEvent(c.args)],
-            Deliver(t, FALSE), Deliver(t, TRUE))
+     /\ UNCHANGED <<pipe, res, spans, scopeIds, nscope, nflush, nnull, nadd>>
+     /\ RecO([NoOp EXCEPT !.op = "EndEmit", !.t = t, !.r = c.r, !.lg = c.lg, !.via = c.mode, !.args = c.args,
+                          !.mayCrash = HasNamelessEvent(c.args)],
+             Deliver(t, FALSE), Deliver(t, TRUE), DeliverOpt(t, FALSE), DeliverOpt(t, TRUE))
      /\ Flag((IF Deliver(t, TRUE) # Deliver(t, FALSE) THEN {"alias_sync"} ELSE {}) \cup
              (IF c.mode = "null" THEN {"null_emit"} ELSE {}) \cup
              (IF c.mode # "null" /\ recs[c.r].noop THEN {"disabled_emit"} ELSE {}) \cup
              (IF HasNamelessEvent(c.args) THEN {"event_noname_arg"} ELSE {}) \cup
              (IF real /\ Len(pipe) >= 3 THEN {"multi3"} ELSE {}) \cup
+             (IF real /\ recs[c.r].np < Len(pipe) THEN {"emit_after_addproc"} ELSE {}) \cup
+             (IF real /\ recs[c.r].np = 0 /\ Len(pipe) = 1 THEN {"emit_after_add_0_1"} ELSE {}) \cup
+             (IF real /\ recs[c.r].np = 1 /\ Len(pipe) = 2 THEN {"emit_after_add_1_2"} ELSE {}) \cup
+             (IF real /\ nadd > 0 /\ recs[c.r].np = Len(pipe) THEN {"late_proc_gets_later_record"} ELSE {}) \cup
              (IF real /\ Len(c.args) = MaxArgs /\ recs[c.r].nset > 0 THEN {"setters_and_args"} ELSE {}))
 
 (* ---- LoggerProvider::ForceFlush: batch processors export what is queued ---- *)
 Drain(alias) == [p \in Procs |-> [i \in 1..Len(pending[p]) |-> Snapshot(pending[p][i], recs[pending[p][i]], alias)]]
+SetToSeq(S) == LET RECURSIVE Q(_)
+                   Q(T) == IF T = {} THEN <<>> ELSE LET x == CHOOSE y \in T : \A z \in T : y <= z IN <<x>> \o Q(T \ {x})
+               IN Q(S)
+DrainOpt(alias) == [p \in Procs |-> [i \in 1..Cardinality(maybe[p]) |->
+                                        Snapshot(SetToSeq(maybe[p])[i], recs[SetToSeq(maybe[p])[i]], alias)]]
 Flush ==
   /\ Alive /\ (nflush < MaxFlush \/ (Hist /\ Len(hist) >= GenDepth - 1))    \* (the closing flush is free)
   /\ exported' = [p \in Procs |-> exported[p] \o Drain(AliasDev)[p]]
   /\ pending' = [p \in Procs |-> <<>>]
+  /\ maybe' = [p \in Procs |-> {}]
   /\ nflush' = nflush + 1
   /\ devUsed' = devUsed \cup (IF AliasDev /\ Drain(TRUE) # Drain(FALSE) THEN {"log-record-aliases-caller-buffers"} ELSE {})
-  /\ UNCHANGED <<pipe, res, spans, scopeIds, nscope, recs, cur, nnull, crashed>>
-  /\ Rec([NoOp EXCEPT !.op = "Flush"], Drain(FALSE), Drain(TRUE))
+  /\ UNCHANGED <<pipe, res, spans, scopeIds, nscope, recs, cur, nnull, crashed, nadd>>
+  /\ RecO([NoOp EXCEPT !.op = "Flush"], Drain(FALSE), Drain(TRUE), DrainOpt(FALSE), DrainOpt(TRUE))
   /\ Flag((IF Drain(TRUE) # Drain(FALSE) THEN {"alias_deferred"} ELSE {}) \cup
           (IF \E p \in Procs : Len(pending[p]) >= 2 THEN {"flush_many"} ELSE {}))
+
+(* ---- LoggerProvider::AddProcessor: later records go to it too; records created before keep their ---- *)
+(* ---- processors (and must survive); whether the new processor also gets those is left open      ---- *)
+AddProc(kind) ==
+  /\ Alive /\ nadd < MaxAdd /\ Len(pipe) < 3 /\ kind \in {"simple", "batch", "hold"}
+  /\ pipe' = Append(pipe, kind)
+  /\ pending' = Append(pending, <<>>) /\ exported' = Append(exported, <<>>) /\ maybe' = Append(maybe, {})
+  /\ nadd' = nadd + 1
+  /\ UNCHANGED <<res, spans, scopeIds, nscope, recs, cur, nflush, nnull, crashed, devUsed>>
+  /\ LET E == [p \in 1..(Len(pipe) + 1) |-> <<>>] IN
+     RecO([NoOp EXCEPT !.op = "AddProc", !.via = kind], E, E, E, E)
+  /\ Flag(IF \E r \in 1..Len(recs) : recs[r].st \in {"open", "emitting"} /\ ~recs[r].noop THEN {"addproc_with_open_record"} ELSE {})
+DoAddProc      == \E kind \in {"simple", "batch", "hold"} : AddProc(kind)
 
 DoScopeEnter   == \E t \in Threads, s \in 0..NS : ScopeEnter(t, s)
 DoScopeExit    == \E t \in Threads : \E id \in scopeIds[t] : ScopeExit(t, id)
@@ -311,7 +360,7 @@ DoArg          == \E t \in Threads : \E a \in Args : Arg(t, a)
 DoEndEmit      == \E t \in Threads : EndEmit(t)
 
 Next == DoScopeEnter \/ DoScopeExit \/ DoCreate \/ DoSet \/ DoBeginEmitRec \/ DoBeginEmitNew \/ DoBeginEmitNull
-        \/ DoArg \/ DoEndEmit \/ Flush
+        \/ DoArg \/ DoEndEmit \/ Flush \/ DoAddProc
 Spec == Init /\ [][Next]_vars
 
 (* ========================= the property C13 =============================== *)
@@ -343,7 +392,8 @@ CountX(sq, r) == Cardinality({i \in 1..Len(sq) : sq[i].r = r})
 ExactlyOncePerProcessor ==
   \A p \in Procs : \A r \in 1..Len(recs) :
     LET n == CountX(exported[p], r) + Count(pending[p], r) IN
-    IF recs[r].st \in {"done", "lost"} /\ ~recs[r].noop      \* "lost": the emitting call crashed (deviation)
+    IF p > recs[r].np THEN n = 0            \* added later: open (tracked in `maybe` / opt, at most once)
+    ELSE IF recs[r].st \in {"done", "lost"} /\ ~recs[r].noop      \* "lost": the emitting call crashed (deviation)
       THEN n = 1 /\ (pipe[p] # "batch" => CountX(exported[p], r) = 1)
     ELSE n = 0
 CorrelationRule ==
@@ -363,7 +413,9 @@ AsImplemented == (ExportedEqualsEmitted /\ ExactlyOncePerProcessor) \/ devUsed #
 \* action properties
 NullIgnored == [][(last'.op = "EndEmit" /\ last'.via = "null") => exported' = exported /\ pending' = pending]_vars
 FlushExportsAll == [][last'.op = "Flush" => \A p \in Procs : pending'[p] = <<>>]_vars
-OnlyEmitExports == [][last'.op \notin {"EndEmit", "Flush"} => exported' = exported /\ pending' = pending]_vars
+OnlyEmitExports == [][last'.op \notin {"EndEmit", "Flush"} =>
+                         /\ \A p \in Procs : exported'[p] = exported[p] /\ pending'[p] = pending[p]
+                         /\ \A p \in (Len(pipe) + 1)..Len(pipe') : exported'[p] = <<>> /\ pending'[p] = <<>>]_vars
 
 (* ========================= behaviour export =============================== *)
 View == <<bvars, flags>>
@@ -393,4 +445,10 @@ WitExplicit      == Wit("explicit_over_span")
 WitPartial       == Wit("partial_identity")
 WitEmptyAttrs    == Wit("empty_attrs")
 WitFlushMany     == Wit("flush_many")
+WitZeroId        == Wit("explicit_zero_id_over_span")
+WitZeroFlags     == Wit("explicit_zero_flags_over_span")
+WitAddProc       == Wit("emit_after_addproc")
+WitAdd01         == Wit("emit_after_add_0_1")
+WitAdd12         == Wit("emit_after_add_1_2")
+WitLateLater     == Wit("late_proc_gets_later_record")
 =============================================================================
